@@ -332,6 +332,16 @@ class Interp:
                 parts.append(v.value)
             elif isinstance(v, ast.FormattedValue):
                 x = self.ev(v.value, env)
+                if v.format_spec is not None:
+                    spec = "".join(c.value for c in v.format_spec.values if isinstance(c, ast.Constant))
+                    if isinstance(x, Const) and isinstance(x.v, (int, float, str)):
+                        try:
+                            parts.append(format(x.v, spec))
+                            continue
+                        except (ValueError, TypeError):
+                            pass
+                    parts.append(Sym(f"format({tagof(x)},{spec!r})", origin=("format", x, spec), typ="str", truthy=True))
+                    continue
                 parts.append(self.to_strpart(x))
         return mkstr(parts)
 
@@ -1237,6 +1247,29 @@ class Interp:
                 return mkstr(parts)
             return Sym(f"join({tagof(a0)})", origin=("join", recv, a0), typ="str")
         if name == "format":
+            if isinstance(recv, Const) and isinstance(recv.v, str):
+                import string
+                try:
+                    parts, auto = [], 0
+                    for lit_, field, spec, conv in string.Formatter().parse(recv.v):
+                        parts.append(lit_)
+                        if field is None:
+                            continue
+                        if field == "":
+                            val, auto = args[auto], auto + 1
+                        elif field.isdigit():
+                            val = args[int(field)]
+                        elif field in kwargs:
+                            val = kwargs[field]
+                        else:
+                            raise KeyError(field)
+                        if spec or conv:
+                            parts.append(Sym(f"format({tagof(val)},{spec!r})", origin=("format", val, spec), typ="str", truthy=True))
+                        else:
+                            parts.append(self.to_strpart(val))
+                    return mkstr(parts)
+                except (KeyError, IndexError, ValueError):
+                    pass
             return Sym(f"format({tagof(recv)})", origin=("format", recv, args, kwargs), typ="str", truthy=True)
         if name in ("startswith", "endswith", "isdigit"):
             return Const(self.decide(f"{tagof(recv)}.{name}({','.join(tagof(a) for a in args)})"))
